@@ -116,7 +116,58 @@ def run(ctx):
                         ctx.violation('storage-dependent', case, ref_exc or canon_q(ref), exc or canon_q(got), key=f'{op}:storage')
     # the same element in the same storage through a history of other storages (cache / by-name routes)
     hist_pass(ctx)
+    registered_pass(ctx)
     ctx.assumptions = ['for the iterative inverse (d >= 6) the loop exit depends on the stored symbolic key set; not covered in the quick tier']
+
+
+def registered_pass(ctx):
+    """compiled (registered) functions on differently stored operands denoting the same elements"""
+    from kingdon import MultiVector
+    rng = ctx.rng
+
+    def f1(x, y): return x.grade(1, 2) * y + x.grade(0, 2)
+    def f2(x, y): return (x >> y).grade(1) - y.grade(1)
+    def f3(x, y): return (x | y) + (x ^ y).grade(2, 3) + x.e12 * y
+    def f4(x, y): return ~x * y.grade(2) + x.dual().grade(1)
+    for sig in ([1, 1, 1], [0, 1, 1], [1, -1, 1, 1]):
+        for symbolic in (False, True):
+            alg = make_algebra(sig)
+            d = alg.d
+            full = list(alg.canon2bin.values())
+            regs = [(f, (alg.register(symbolic=True)(f) if symbolic else alg.register(f))) for f in (f1, f2, f3, f4)]
+            for _ in range(3 if ctx.quick else 12):
+                kx = rng.sample(range(2 ** d), min(2 ** d, 4)); ky = rng.sample(range(2 ** d), min(2 ** d, 3))
+                vx = {k: Fraction(rng.randint(-5, 7)) for k in kx}; vy = {k: Fraction(rng.randint(-5, 7)) for k in ky}
+                def variants(vals):
+                    ks0 = list(vals)
+                    out = [('reference', sorted(ks0, key=full.index))]
+                    p = list(ks0); rng.shuffle(p); out.append(('permuted', p))
+                    extra = [k for k in range(2 ** d) if k not in vals]
+                    pad = ks0 + rng.sample(extra, min(len(extra), 2)); rng.shuffle(pad); out.append(('zero-padded', pad))
+                    out.append(('full-binary', list(range(2 ** d))))
+                    out.append(('full-canonical', list(full)))
+                    return [(nm, MultiVector.fromkeysvalues(alg, tuple(ks_), [vals.get(k, Fraction(0)) for k in ks_])) for nm, ks_ in out]
+                xs, ys = variants(vx), variants(vy)
+                for f, rf in regs:
+                    if symbolic and f is f3:
+                        continue            # coefficient access in the symbolic route: known finding F17 of C11
+                    try:
+                        ref = mv_to_dict(rf(xs[0][1], ys[0][1]))
+                    except Exception:
+                        continue
+                    for (nx, xm), (ny, ym) in [(a, b) for a in xs for b in ys][1:]:
+                        if symbolic and (len(xm.keys()) > 5 or len(ym.keys()) > 5) and f is f2:
+                            continue
+                        case = {'sig': sig, 'registered': f.__name__, 'symbolic': symbolic, 'x_variant': nx, 'y_variant': ny,
+                                'kx': list(xm.keys()), 'ky': list(ym.keys())}
+                        ctx.case(case, tag='registered' + (':symbolic' if symbolic else ''))
+                        try:
+                            got = mv_to_dict(rf(xm, ym))
+                        except Exception as e:
+                            ctx.violation('storage-dependent', case, str(ref)[:200], repr(e)[:200], key=f'registered:{f.__name__}:raises')
+                            continue
+                        if got != ref:
+                            ctx.violation('storage-dependent', case, str(ref)[:200], str(got)[:200], key=f'registered:{f.__name__}:storage')
 
 
 def canon_q(dct):
